@@ -155,6 +155,12 @@ def run(ctx):
         for u in uses:
             lo = paths.guarded(rd, u, lambda fn, cc, pol, var=var: paths.rel(fn, cc, pol, subst=False) == ("0", "<=", var))
             hi = paths.guarded(rd, u, lambda fn, cc, pol, var=var: paths.rel(fn, cc, pol, subst=False) == (var, "<", "fsg->n_state"))
+            if not (lo and hi):
+                from .. import symx
+                ai_ = [i_ for i_, a_ in enumerate(rd.args(u)) if rd.canon(a_, subst=False) == var]
+                if ai_:
+                    vl, vh, _n = symx.arg_bounds(rd, P, u, ai_[0])
+                    lo, hi = lo or vl, hi or vh
             ctx.check(w2, lo and hi, key(rd, "range:%s@%s" % (var, rd.nodes[u]["callee"])), rd.where(u), "state number `%s` reaches %s without 0 <= %s < n_state" % (var, rd.nodes[u]["callee"], var))
     pu = [s for s in paths.stores(rd) if s["path"] == "tprob"]
     for s in pu:
